@@ -211,15 +211,16 @@ static void setup(void) {
     for (int mx = 0; mx <= N + 2; mx++) OPS[NOPS++] = (op_t){OP_RESIZE, mx, 0, "qvector_resize"};
     OPS[NOPS++] = (op_t){OP_CLEAR, 0, 0, "qvector_clear"};
     for (int h = 0; h < 3; h++) OPS[NOPS++] = (op_t){OP_RESIZEHUGE, h, 0, "qvector_resize"};
-    for (int i = -N - 2; i <= N + 2; i++) OPS[NOPS++] = (op_t){OP_GETAT, i, 0, "qvector_getat"};
+    if (sm_hist_mode) for (int i = -N - 2; i <= N + 2; i++) OPS[NOPS++] = (op_t){OP_GETAT, i, 0, "qvector_getat"};   /* in the closure a read is a self-loop that the observation already covers */
     for (int j = 1; j <= 3 && j <= N; j++) for (int k = 1; k <= 4; k++) OPS[NOPS++] = (op_t){OP_WALKSHRINK, j, k == 4 ? 9 : k, "qvector_getnext"};
     snprintf(SP.prefix, sizeof SP.prefix, "vector:%d:%d:%d:%d:", CAP0, OSZ, POLICY, N);
     SP.nops = NOPS; SP.label = op_label; SP.transition = transition; SP.initial = initial;
 }
 static int worker(int argc, char **argv) {
-    if (vc_replay_key) { int off; if (sscanf(vc_replay_key, "vector:%d:%d:%d:%d:%n", &CAP0, &OSZ, &POLICY, &N, &off) < 4) return 1; setup(); if (argc >= 6 && !strcmp(argv[5], "hist")) sm_hist_mode = 1; vc_case("replay", vc_replay_key); return sm_replay(&SP, vc_replay_key + off); }
+    if (vc_replay_key) { int off; if (sscanf(vc_replay_key, "vector:%d:%d:%d:%d:%n", &CAP0, &OSZ, &POLICY, &N, &off) < 4) return 1; if (argc >= 6 && !strcmp(argv[5], "hist")) sm_hist_mode = 1; setup(); vc_case("replay", vc_replay_key); return sm_replay(&SP, vc_replay_key + off); }
     if (argc < 5) return 1;
-    CAP0 = atoi(argv[1]); OSZ = atoi(argv[2]); POLICY = atoi(argv[3]); N = atoi(argv[4]); setup();
+    CAP0 = atoi(argv[1]); OSZ = atoi(argv[2]); POLICY = atoi(argv[3]); N = atoi(argv[4]); if (argc >= 10 && !strcmp(argv[5], "hist")) sm_hist_mode = 1;
+    setup();
     if (argc >= 10 && !strcmp(argv[5], "hist")) {   /* vector <cap> <osz> <pol> <N> hist <n> <depth> <shard> <nshards>: unmerged histories from a vector of n elements */
         int n = atoi(argv[6]); uint16_t seed[16];
         for (int i = 0; i < n && i < 16; i++) { int want = (i + 1) % 3; for (int o = 0; o < NOPS; o++) if (OPS[o].kind == OP_ADDLAST && OPS[o].e == want) seed[i] = (uint16_t)o; }
